@@ -859,7 +859,20 @@ def F12(m, R):
     for k, pred, what in checks:
         b = arms.get(k)
         R.check(b is not None and pred(b), f, b[0] if b else (chain or loop), what, 'no arm handles %s as documented' % k, construct='scrub ' + k)
-    # bool is an int: fine.  order: AnsiSetting / str before int is irrelevant (disjoint types)
+    # integers stay bare until the scrubber has grouped them: the grouping pass looks for `int` items only, so an integer wrapped on its own is never
+    # joined with its neighbours ('38;5;100' would report 38, 5 and 100)
+    groups = any(call_name(x) == 'isinstance' and len(x.args) == 2 and norm(x.args[1]) == 'int' and norm(x.args[0]) != it for x in f.walk() if isinstance(x, ast.Call)) and \
+        any(call_name(x) == 'parse_graphic_sequence' for x in f.walk() if isinstance(x, ast.Call))
+    if groups:
+        for fn_name in (ro.SCRUB, '_scrub_ansi_format_string'):
+            try:
+                h = m.fn('%s.%s' % (ro.POINT, fn_name))
+            except Exception:
+                continue
+            for x in h.walk():
+                if isinstance(x, ast.Call) and call_name(x) == 'AnsiSetting' and any(isinstance(a, ast.Call) and call_name(a) == '_scrub_ansi_format_int' for a in x.args):
+                    R.viol(h, x, 'an integer is wrapped as a setting of its own before the grouping pass of %s, which joins `int` items only: the codes of "38;5;100" are reported '
+                                 'as three settings, not as the one that [38, 5, 100] gives' % ro.SCRUB, construct='scrub bare ints')
     eb = arms.get('<else>') or []
     txt = '\n'.join(norm(s) for s in eb)
     # names that stand for the item or for what it unwraps to: `c = item.ansi_settings`, `nested = c`, `nested = item`
